@@ -53,22 +53,34 @@ def abstract_of(ltx, spent):
     }
 
 
-@functools.lru_cache(maxsize=8)
+def spec_fields(spec):
+    """spec: (type, m, n, variant[, kbase[, n_in, n_out, idx[, ht]]]).
+    kbase: index of the first key (keys are key(kbase) .. key(kbase+n-1)); n_in/n_out/idx: transaction shape and the
+    position of the input under test (default 2 x 2, idx = variant % 2); ht: hash type of the signature(s) of the
+    input under test (default: what the signing API uses by itself)."""
+    spec = tuple(spec)
+    typ, m, n, variant = spec[:4]
+    kbase = spec[4] if len(spec) > 4 else 0
+    n_in, n_out, idx = spec[5:8] if len(spec) > 7 else (2, 2, variant % 2)
+    ht = spec[8] if len(spec) > 8 else None
+    return typ, m, n, variant, kbase, n_in, n_out, idx, ht
+
+
+@functools.lru_cache(maxsize=16)
 def build_base(spec):
-    """spec: tuple (type, m, n, variant). Returns (abstract tx, spent list, idx, info) built and signed by buidl."""
+    """spec: see spec_fields. Returns (abstract tx, spent list, idx, info) built and signed by buidl."""
     L = lib_objects()
     pecc, Script, Tx, TxIn, TxOut, Witness, taproot = L["pecc"], L["Script"], L["Tx"], L["TxIn"], L["TxOut"], L["Witness"], L["taproot"]
-    typ, m, n, variant = spec
-    idx = variant % 2
-    keys = list(range(n))
+    typ, m, n, variant, kbase, n_in, n_out, idx, ht = spec_fields(spec)
+    keys = [kbase + j for j in range(n)]
     privs = [pecc.PrivateKey(key(k)) for k in keys]
     amount = 1000000 + variant
     info = {"type": typ, "m": m, "n": n, "keys": keys}
     # spent script for the input under test
     if typ in ("p2pkh", "p2pkh-u"):
         comp = typ == "p2pkh"
-        privs[0] = pecc.PrivateKey(key(0), compressed=comp)
-        sec = C.sec(C.mulg(key(0)), comp)
+        privs[0] = pecc.PrivateKey(key(keys[0]), compressed=comp)
+        sec = C.sec(C.mulg(key(keys[0])), comp)
         spk = b"\x76\xa9\x14" + txref.h160(sec) + b"\x88\xac"
         info.update(sigver="base", script_code=spk, sig_at=[("ss", 0)], pub_at=("ss", 1))
     elif typ in ("p2sh", "p2wsh", "p2sh-p2wsh"):
@@ -86,7 +98,7 @@ def build_base(spec):
             spk = b"\xa9\x14" + txref.h160(redeem) + b"\x87"
             info.update(sigver="v0", sig_at=[("wit", 1 + j) for j in range(m)], script_at=("wit", m + 1), dummy_at=("wit", 0), redeem=redeem)
     elif typ in ("p2wpkh", "p2sh-p2wpkh"):
-        sec = C.sec(C.mulg(key(0)))
+        sec = C.sec(C.mulg(key(keys[0])))
         prog = b"\x00\x14" + txref.h160(sec)
         sc = b"\x76\xa9\x14" + txref.h160(sec) + b"\x88\xac"
         spk = prog if typ == "p2wpkh" else b"\xa9\x14" + txref.h160(prog) + b"\x87"
@@ -94,7 +106,7 @@ def build_base(spec):
     elif typ == "p2tr-key":
         # variant selects: with/without script tree; the key index walks to cover both internal-key parities
         want_odd = (variant // 2) % 2
-        kidx = next(k for k in range(200, 400) if (C.mulg(key(k))[1] & 1) == want_odd)
+        kidx = kbase if kbase else next(k for k in range(200, 400) if (C.mulg(key(k))[1] & 1) == want_odd)
         info["keys"] = [kidx]
         privs = [pecc.PrivateKey(key(kidx))]
         root = b"" if variant % 2 == 0 else taproot.TapLeaf(Script([b"\x07" * 32, 0xAC])).hash()
@@ -117,13 +129,12 @@ def build_base(spec):
         info.update(sigver="tapscript", script=tap_script.raw_serialize(), leaf_hash=leaf.hash())
     else:
         raise ValueError(typ)
-    # transaction: two inputs, two outputs; the other input is an unsigned P2PKH of a foreign key
+    # transaction: n_in inputs, n_out outputs (default two and two); the other inputs are unsigned P2PKH of a foreign key
     other_spk = b"\x76\xa9\x14" + txref.h160(C.sec(C.mulg(key(FOREIGN)))) + b"\x88\xac"
-    spent = [None, None]
+    spent = [(5000 if n_in == 2 else 5000 + 11 * i, other_spk) for i in range(n_in)]
     spent[idx] = (amount, spk)
-    spent[1 - idx] = (5000, other_spk)
     tins = []
-    for i in range(2):
+    for i in range(n_in):
         ti = TxIn(bytes([0x21 + i]) * 32, i + variant, None, 0xFFFFFFFE - i)
         ti._value = spent[i][0]
         ti._script_pubkey = L["Script"].parse(BytesIO(txref.varbytes(spent[i][1])))
@@ -131,7 +142,7 @@ def build_base(spec):
 
         ti._script_pubkey = ScriptPubKey.parse(BytesIO(txref.varbytes(spent[i][1])))
         tins.append(ti)
-    touts = [TxOut(amount - 2000, L["P2PKHScriptPubKey"](b"\x55" * 20)), TxOut(1500, L["P2TRScriptPubKey"](b"\x66" * 32))]
+    touts = [TxOut(amount - 2000, L["P2PKHScriptPubKey"](b"\x55" * 20)), TxOut(1500, L["P2TRScriptPubKey"](b"\x66" * 32)), TxOut(700, L["P2PKHScriptPubKey"](b"\x77" * 20))][:n_out]
     ltx = Tx(2, tins, touts, 17 + variant, network="mainnet", segwit=typ not in ("p2pkh", "p2pkh-u", "p2sh"))
     signers = privs[:m] if typ in ("p2sh", "p2wsh", "p2sh-p2wsh", "p2tr-ms") else privs[:1]
     if typ in ("p2pkh", "p2pkh-u"):
@@ -143,7 +154,7 @@ def build_base(spec):
     elif typ == "p2sh":
         redeem = L["RedeemScript"].convert(info["script"])
         # signatures must follow the order of the keys in the script
-        order = sorted(range(n), key=lambda k: C.sec(C.mulg(key(k))))
+        order = sorted(range(n), key=lambda k: C.sec(C.mulg(key(keys[k]))))
         chosen = order[:m]
         sigs = [ltx.get_sig_legacy(idx, privs[k], redeem_script=redeem) for k in chosen]
         ltx.tx_ins[idx].finalize_p2sh_multisig(sigs, redeem)
@@ -151,7 +162,7 @@ def build_base(spec):
         info["signers"] = chosen
     elif typ in ("p2wsh", "p2sh-p2wsh"):
         ws = L["WitnessScript"].convert(info["script"])
-        order = sorted(range(n), key=lambda k: C.sec(C.mulg(key(k))))
+        order = sorted(range(n), key=lambda k: C.sec(C.mulg(key(keys[k]))))
         chosen = order[:m]
         sigs = [ltx.get_sig_segwit(idx, privs[k], witness_script=ws) for k in chosen]
         if typ == "p2wsh":
@@ -162,24 +173,31 @@ def build_base(spec):
         info["signers"] = chosen
     elif typ == "p2tr-key":
         tweaked = privs[0].tweaked_key(info["root"])
-        ok = ltx.sign_p2tr_keypath(idx, tweaked)
+        ok = ltx.sign_p2tr_keypath(idx, tweaked) if ht is None else ltx.sign_p2tr_keypath(idx, tweaked, hash_type=ht)
     elif typ == "p2tr-ms":
         ltx.initialize_p2tr_multisig(idx, cb, tap_script)
-        xs = sorted(range(n), key=lambda k: ec.b32(C.mulg(key(k))[0]))
+        xs = sorted(range(n), key=lambda k: ec.b32(C.mulg(key(keys[k]))[0]))
         chosen = xs[:m]
-        sigs = [ltx.get_sig_taproot(idx, privs[k], ext_flag=1) if k in chosen else b"" for k in range(n)]
+        sigs = [(ltx.get_sig_taproot(idx, privs[k], ext_flag=1) if ht is None else ltx.get_sig_taproot(idx, privs[k], ext_flag=1, hash_type=ht)) if k in chosen else b"" for k in range(n)]
         ok = ltx.finalize_p2tr_multisig(idx, sigs)
         info["signers"] = chosen
         wl = len(ltx.tx_ins[idx].witness.items)
         info.update(sig_at=[("wit", j) for j in range(wl - 2) if ltx.tx_ins[idx].witness.items[j]], script_at=("wit", wl - 2), cb_at=("wit", wl - 1))
     elif typ == "p2tr-pk":
         ltx.tx_ins[idx].witness = Witness([tap_script.raw_serialize(), cb.serialize()])
-        sig = ltx.get_sig_taproot(idx, privs[0], ext_flag=1)
+        sig = ltx.get_sig_taproot(idx, privs[0], ext_flag=1) if ht is None else ltx.get_sig_taproot(idx, privs[0], ext_flag=1, hash_type=ht)
         ltx.tx_ins[idx].witness.items.insert(0, sig)
         ok = ltx.verify_input(idx)
         info.update(sig_at=[("wit", 0)], script_at=("wit", 1), cb_at=("wit", 2))
     tx = abstract_of(ltx, spent)
     info["lib_ok"] = bool(ok)
+    info["lib_signed"] = True
+    if ht is not None and info["sigver"] in ("base", "v0"):
+        # the library's ECDSA signing API has no hash-type parameter: the signatures of the input under test are
+        # replaced by reference signatures of the SAME keys with hash type ht
+        for j, at in enumerate(info["sig_at"]):
+            put_at(tx, idx, at, ref_sign(tx, spent, idx, info, signer_secret(info, j, tx, idx), ht))
+        info["lib_signed"] = False
     return tx, spent, idx, info
 
 
@@ -347,8 +365,13 @@ def signer_secret(info, j, tx, idx):
         Q, par, t = C.taproot_tweak(P[0], info["root"])
         return (dd + t) % N
     if "signers" in info:
-        xs = sorted(info["signers"], key=lambda k: ec.b32(C.mulg(key(k))[0]), reverse=True)
-        return key(xs[j] if j < len(xs) else info["keys"][0])
+        # info["signers"] holds positions in info["keys"]
+        kk = info["keys"]
+        if info["sigver"] in ("base", "v0"):
+            xs = list(info["signers"])  # CHECKMULTISIG: signatures in script (SEC) order, as chosen by build_base
+        else:
+            xs = sorted(info["signers"], key=lambda k: ec.b32(C.mulg(key(kk[k]))[0]), reverse=True)
+        return key(kk[xs[j]] if j < len(xs) else kk[0])
     return key(info["keys"][0])
 
 
@@ -449,17 +472,18 @@ def run_spend(case):
     res = Res()
     spec = tuple(case["spec"])
     tx0, spent0, idx, info = build_base(spec)
-    vc = {"engine": "spend", "case": case}
+    eng = case.get("eng", "spend")
+    vc = {"engine": eng, "case": case}
     typ = spec[0]
-    label = f"{typ}-{spec[1]}of{spec[2]}"
+    label = f"{typ}-{spec[1]}of{spec[2]}" + (f"-keys@{spec[4]}" if len(spec) > 4 and spec[4] else "")
     if not case["devs"]:
         ref_ok = interp.verify_input(tx0, idx, spent0, relaxed=True)
         strict = interp.verify_input(tx0, idx, spent0)
         lib_ok = info["lib_ok"] and lib_verify(tx0, spent0, idx)
         if not lib_ok:
-            res.violation(f"C06/spend/{typ}/own-spend-rejected", vc, lib_ok, True, f"{label}: spend built and signed through the library does not verify")
+            res.violation(f"C06/{eng}/{typ}/own-spend-rejected", vc, lib_ok, True, f"{label}: spend built and signed through the library does not verify")
         elif not ref_ok:
-            res.violation(f"C06/spend/{typ}/own-spend-invalid-by-reference", vc, lib_ok, ref_ok, f"{label}: library accepts its own spend, reference consensus verifier rejects it")
+            res.violation(f"C06/{eng}/{typ}/own-spend-invalid-by-reference", vc, lib_ok, ref_ok, f"{label}: library accepts its own spend, reference consensus verifier rejects it")
         else:
             res.ok("own spend verifies (library and reference%s)" % ("" if strict else "; strict consensus rejects: malleability rule"), nontrivial=("base", spec), sample=case)
         return res
@@ -487,7 +511,7 @@ def run_spend(case):
     lib_ok = lib_verify(tx, spent, idx)
     devs = "+".join(case["devs"])
     if lib_ok and not ref_ok:
-        res.violation(f"C06/spend/{typ}/{devs}", vc, True, False, f"{label}: mutated spend [{devs}] verifies although consensus rejects it")
+        res.violation(f"C06/{eng}/{typ}/{devs}", vc, True, False, f"{label}: mutated spend [{devs}] verifies although consensus rejects it")
     elif lib_ok and ref_ok:
         res.ok("benign mutation (still authorised; strict consensus %s)" % ("accepts" if strict_ok else "rejects: malleability rule only"), nontrivial=None)
     elif not lib_ok and ref_ok:
@@ -565,6 +589,726 @@ def run_sigfree(case):
                 res.ok("signature-free scriptSig rejected", nontrivial=(typ, tuple(q), keep_witness), sample=vc["case"] if len(q) == 2 else None)
             else:
                 res.ok("scriptSig junk beside an intact witness: consensus-authorised or library stricter")
+    return res
+
+
+# ------------------------------------------------------------------ guarded library call (non-termination is a verdict)
+HANG_CPU_S = 10  # CPU seconds of the worker process (ITIMER_VIRTUAL); an honest verification needs well under one second
+
+
+class DoesNotTerminate(BaseException):
+    pass
+
+
+def lib_verify_guarded(tx, spent, idx):
+    """Tx.verify_input under a CPU-time limit: True / False (returned falsy or raised) / "hang"."""
+    import signal
+
+    def on_timer(*a):
+        raise DoesNotTerminate()
+
+    old = signal.signal(signal.SIGVTALRM, on_timer)
+    signal.setitimer(signal.ITIMER_VIRTUAL, HANG_CPU_S)
+    try:
+        from buidl.script import ScriptPubKey
+        from buidl.tx import Tx
+
+        def f():
+            ltx = Tx.parse(BytesIO(txref.ser_tx(tx)))
+            for i, (amt, spk) in enumerate(spent):
+                ltx.tx_ins[i]._value = amt
+                ltx.tx_ins[i]._script_pubkey = ScriptPubKey.parse(BytesIO(txref.varbytes(spk)))
+            return ltx.verify_input(idx)
+
+        r = attempt(f)
+    finally:
+        signal.setitimer(signal.ITIMER_VIRTUAL, 0)
+        signal.signal(signal.SIGVTALRM, old)
+    if isinstance(r, Rejected):
+        return "hang" if r.how == "DoesNotTerminate" else False
+    return bool(r)
+
+
+def ref_verify(tx, idx, spent):
+    """authorisation-mode reference verdict; programs outside the library's opcode set -> None"""
+    try:
+        return interp.verify_input(tx, idx, spent, relaxed=True)
+    except interp.OutOfStatement as e:
+        return False if "numeric operand" in str(e) else None
+
+
+# ------------------------------------------------------------------ attacker material (no key of any wallet involved)
+ATT = 98  # index of the attacker's key
+
+
+@functools.lru_cache(maxsize=1)
+def attacker():
+    d = key(ATT)
+    P = C.mulg(d)
+    pub = C.sec(P)
+    leaf_script = b"\x51"  # OP_1
+    lh = txref.tapleaf_hash(leaf_script)
+    Q, par, _ = C.taproot_tweak(P[0], lh)
+    cb = bytes([0xC0 | par]) + ec.b32(P[0])
+    return {
+        "d": d,
+        "pub": pub,
+        "A20": txref.h160(pub),  # P2WPKH program of the attacker's key
+        "A32": txref.sha256(leaf_script),  # P2WSH program of the script OP_1
+        "AQ": ec.b32(Q[0]),  # P2TR output key committing to the leaf OP_1 under the attacker's internal key
+        "cb": cb,
+        "F": ec.der_sig(*C.ecdsa_sign(d, 777)) + b"\x01",  # well-formed ECDSA signature over an unrelated message
+        "G": C.schnorr_sign(d, b"\x07" * 32, b"\x00" * 32),  # well-formed Schnorr signature over an unrelated message
+    }
+
+
+# ------------------------------------------------------------------ hijack: witness-program shaped pushes in the scriptSig + a witness made by the attacker
+HJ_FULL = ["R", b"", 0x51, b"\x51", "A20", "A32", "AQ", "F", "R20", "R32", b"\x01"]
+HJ_CORE = ["R", b"", 0x51, b"\x51", "A20", "A32", "AQ"]
+HJ_TYPES_QUICK = [("p2pkh", 1, 1, 0), ("p2sh", 1, 2, 1), ("p2sh", 2, 3, 1), ("p2sh-p2wpkh", 1, 1, 1), ("p2sh-p2wsh", 2, 3, 1)]
+HJ_TYPES_MORE = [("p2wpkh", 1, 1, 0), ("p2wsh", 1, 2, 1), ("p2tr-key", 1, 1, 0)]
+HJ_WITNESSES = ["none", "script-OP_1", "own-key", "own-taproot-leaf", "honest"]
+
+
+def gen_hijack(tier, seed):
+    full_len, core_len = (2, 3) if tier == "quick" else (3, 4)
+    seqs = set()
+    for L in range(1, full_len + 1):
+        seqs.update(itertools.product(range(len(HJ_FULL)), repeat=L))
+    core_idx = [HJ_FULL.index(x) for x in HJ_CORE]
+    for L in range(full_len + 1, core_len + 1):
+        seqs.update(itertools.product(core_idx, repeat=L))
+    # the shortest P2PKH forms need four items: <program pair> <well-formed signature> <public key>
+    seqs.update((a, b, HJ_FULL.index("F"), HJ_FULL.index("R")) for a in (1, 2) for b in (HJ_FULL.index("A20"), HJ_FULL.index("A32"), HJ_FULL.index("AQ")))
+    seqs = sorted(seqs, key=lambda q: (len(q), q))
+    cases = []
+    for spec in HJ_TYPES_QUICK + (HJ_TYPES_MORE if tier == "thorough" else []):
+        for i in range(0, len(seqs), 16):
+            cases.append({"spec": list(spec), "seqs": [list(q) for q in seqs[i : i + 16]]})
+    return cases
+
+
+def run_hijack(case):
+    import copy
+
+    res = Res()
+    spec = tuple(case["spec"])
+    tx0, spent0, idx, info = build_base(spec)
+    typ = spec[0]
+    A = attacker()
+    R = info.get("redeem") or info.get("script") or C.sec(C.mulg(key(info["keys"][0])))
+    spk = spent0[idx][1]
+    wit0 = tx0["ins"][idx].get("witness", [])
+    sym = {"R": R, "R20": txref.h160(R), "R32": txref.sha256(R), "A20": A["A20"], "A32": A["A32"], "AQ": A["AQ"], "F": A["F"]}
+    own_sig = {}
+    for q in case["seqs"]:
+        items = [sym[HJ_FULL[j]] if isinstance(HJ_FULL[j], str) else HJ_FULL[j] for j in q]
+        name = " ".join(sf_name(HJ_FULL[j]) for j in q)
+        script_sig = txref.script_from_items(items)
+        for wname in HJ_WITNESSES:
+            if wname == "honest" and not wit0:
+                continue
+            tx = copy.deepcopy(tx0)
+            tx["ins"][idx]["script"] = script_sig
+            if wname == "none":
+                wit = []
+            elif wname == "script-OP_1":
+                wit = [b"\x51"]
+            elif wname == "own-taproot-leaf":
+                wit = [b"\x51", A["cb"]]
+            elif wname == "honest":
+                wit = list(wit0)
+            else:
+                # a signature by the attacker's own key over this transaction, legacy digest, script code = the scriptPubKey,
+                # or for P2SH the last scriptSig push (what a verifier confused about the script would hash)
+                if interp.is_p2sh(spk):
+                    sc = items[-1] if isinstance(items[-1], bytes) else b""
+                else:
+                    sc = spk
+                if sc not in own_sig:
+                    tx["ins"][idx]["witness"] = []
+                    z = txref.sighash_legacy(tx, idx, sc, 1)
+                    own_sig[sc] = ec.der_sig(*C.ecdsa_sign(A["d"], int.from_bytes(z, "big"))) + b"\x01"
+                wit = [own_sig[sc], A["pub"]]
+            tx["ins"][idx]["witness"] = wit
+            tx["segwit"] = any(i.get("witness") for i in tx["ins"])
+            ref_ok = ref_verify(tx, idx, spent0)
+            if ref_ok is None:
+                res.skip("outside the library's opcode set")
+                continue
+            if wname != "honest":
+                assert not ref_ok, ("reference accepts a spend without any signature of the wallet", typ, name, wname)
+            lib = lib_verify_guarded(tx, spent0, idx)
+            vc = {"engine": "hijack", "case": {"spec": list(spec), "seqs": [list(q)]}}
+            if lib == "hang":
+                res.violation(f"C06/hijack/{typ}/does-not-terminate", vc, "no result after %d CPU seconds" % HANG_CPU_S, False, f"{typ}: scriptSig [{name}] with witness '{wname}': Tx.verify_input does not terminate")
+            elif lib and not ref_ok:
+                res.violation(f"C06/hijack/{typ}/scriptsig-witness-program", vc, True, False, f"{typ}: scriptSig [{name}] with attacker-made witness '{wname}' verifies: no signature by any key of the output is present")
+            elif not ref_ok:
+                res.ok("spend without authorisation rejected", nontrivial=(typ, tuple(q), wname), sample=vc["case"] if len(q) == 2 and wname == "own-key" else None)
+            else:
+                res.ok("scriptSig junk beside an intact witness: consensus-authorised or library stricter")
+    return res
+
+
+# ------------------------------------------------------------------ witfree: witness stacks without any valid signature
+# key sets: kbase 0 (the default wallet), 1 and 509 (public keys whose bytes, read as a script, execute without failing:
+# 02d965.. / 0361ea..), 500 (not so)
+WF_BASES_QUICK = [
+    ("p2wpkh", 1, 1, 0, 1),
+    ("p2sh-p2wpkh", 1, 1, 1, 1),
+    ("p2wsh", 1, 2, 1),
+    ("p2tr-key", 1, 1, 0),
+    ("p2tr-pk", 1, 1, 0),
+]
+WF_BASES_MORE = [("p2wpkh", 1, 1, 0), ("p2sh-p2wsh", 2, 3, 1), ("p2tr-ms", 2, 3, 1), ("p2wpkh", 1, 1, 0, 509), ("p2wpkh", 1, 1, 0, 500), ("p2tr-pk", 1, 1, 1, 1), ("p2tr-ms", 1, 2, 1)]
+WF_TAILS = ["none", "honest-tail", "foreign-sigs+honest-tail", "empty-sigs+honest-tail", "script-OP_1", "own-taproot-leaf"]
+WF_FULL_MAX, WF_CORE_MAX = 14, 6
+
+
+def wf_alphabet(info, tx0, idx):
+    """(full alphabet, core alphabet, honest tail, number of signature slots, leading dummy, type-appropriate foreign signature)"""
+    A = attacker()
+    wit0 = tx0["ins"][idx]["witness"]
+    sv = info["sigver"]
+    if sv == "tapkey":
+        tail, nsig, lead = [], 1, []
+    elif sv == "tapscript":
+        tail, nsig, lead = wit0[-2:], len(wit0) - 2, []
+    elif "pub_at" in info:
+        tail, nsig, lead = wit0[-1:], 1, []
+    else:
+        tail, nsig, lead = wit0[-1:], info["m"], [b""]
+    J = A["F"] if sv == "v0" else A["G"]
+    own = []
+    for x in tail:
+        own += [x, txref.sha256(x)] + ([txref.h160(x)] if len(x) == 33 else [])
+    full = [b"", b"\x01", A["F"], A["G"], A["A20"], A["A32"], A["AQ"], A["pub"], b"\x50\x01"] + own
+    core = [b"", b"\x01", J, A["AQ"]] + ([txref.sha256(tail[-1])] + ([txref.h160(tail[-1])] if len(tail[-1]) == 33 else []) if tail else [A["A32"]])
+    return full, core, tail, nsig, lead, J
+
+
+def wf_lengths(tier, typ, tail):
+    """(max prefix length over the full alphabet, max prefix length over the core alphabet)"""
+    taproot = typ.startswith("p2tr")
+    if tier == "quick":
+        if tail == "foreign-sigs+honest-tail":
+            return 0, 2
+        return (1, 2) if taproot else (1, 3)
+    if tail == "foreign-sigs+honest-tail":
+        return (1, 3) if taproot else (2, 4)
+    return (2, 3) if taproot else (3, 4)
+
+
+def gen_witfree(tier, seed):
+    cases = []
+    for spec in WF_BASES_QUICK + (WF_BASES_MORE if tier == "thorough" else []):
+        for tail in WF_TAILS:
+            if spec[0] == "p2tr-key" and tail in ("foreign-sigs+honest-tail", "empty-sigs+honest-tail", "honest-tail"):
+                continue  # a key-path witness has no non-signature tail
+            full_len, core_len = wf_lengths(tier, spec[0], tail)
+            # prefixes are enumerated by position in the per-base alphabets; a case is one (base, tail, length, first item)
+            for L in range(0, core_len + 1):
+                which = "full" if L <= full_len else "core"
+                if L == 0:
+                    cases.append({"spec": list(spec), "tail": tail, "L": 0, "which": which, "first": None})
+                else:
+                    for first in range(WF_FULL_MAX if which == "full" else WF_CORE_MAX):
+                        cases.append({"spec": list(spec), "tail": tail, "L": L, "which": which, "first": first})
+    return cases
+
+
+def run_witfree(case):
+    import copy
+
+    res = Res()
+    spec = tuple(case["spec"])
+    tx0, spent0, idx, info = build_base(spec)
+    typ = spec[0]
+    A = attacker()
+    full, core, tail, nsig, lead, J = wf_alphabet(info, tx0, idx)
+    alpha = full if case["which"] == "full" else core
+    assert len(full) <= WF_FULL_MAX and len(core) <= WF_CORE_MAX
+    tname = case["tail"]
+    tl = {
+        "none": [],
+        "honest-tail": tail,
+        "foreign-sigs+honest-tail": lead + [J] * nsig + tail,
+        "empty-sigs+honest-tail": lead + [b""] * nsig + tail,
+        "script-OP_1": [b"\x51"],
+        "own-taproot-leaf": [b"\x51", A["cb"]],
+    }[tname]
+    L = case["L"]
+    if L == 0:
+        prefixes = [()]
+    elif case["first"] >= len(alpha):
+        return None
+    else:
+        prefixes = [(case["first"],) + rest for rest in itertools.product(range(len(alpha)), repeat=L - 1)]
+    for q in prefixes:
+        if case.get("only") is not None and list(q) != list(case["only"]):
+            continue
+        wit = [alpha[j] for j in q] + list(tl)
+        tx = copy.deepcopy(tx0)
+        tx["ins"][idx]["witness"] = wit
+        tx["segwit"] = any(i.get("witness") for i in tx["ins"])
+        ref_ok = ref_verify(tx, idx, spent0)
+        if ref_ok is None:
+            res.skip("outside the library's opcode set")
+            continue
+        assert not ref_ok, ("reference accepts a witness without any valid signature", typ, [x.hex() for x in wit])
+        lib = lib_verify_guarded(tx, spent0, idx)
+        vc = {"engine": "witfree", "case": dict(case, only=list(q))}
+        shape = "[" + " ".join(wf_name(x, info, tx0, idx) for x in wit) + "]"
+        if lib == "hang":
+            res.violation(f"C06/witfree/{typ}/does-not-terminate", vc, "no result after %d CPU seconds" % HANG_CPU_S, False, f"{typ}: witness {shape}: Tx.verify_input does not terminate")
+        elif lib:
+            res.violation(f"C06/witfree/{typ}/" + ("tapscript" if typ.startswith("p2tr") else "v0") + "-nested-witness-program", vc, True, False, f"{typ}: witness {shape} (no valid signature in it) verifies")
+        else:
+            res.ok("witness without a valid signature rejected", nontrivial=(spec, tname, q), sample=vc["case"] if L == 2 and tname == "honest-tail" else None)
+    return res
+
+
+def wf_name(x, info, tx0, idx):
+    A = attacker()
+    names = {b"": "''", A["F"]: "foreign-ecdsa-sig", A["G"]: "foreign-schnorr-sig", A["A20"]: "h160(att-pub)", A["A32"]: "sha256(OP_1)", A["AQ"]: "att-output-key", A["pub"]: "att-pub", A["cb"]: "att-control-block"}
+    if x in names:
+        return names[x]
+    for nm, y in zip(("item[-1]", "item[-2]"), reversed(tx0["ins"][idx]["witness"])):
+        if x == y:
+            return nm
+        if x == txref.sha256(y):
+            return f"sha256({nm})"
+        if x == txref.h160(y):
+            return f"h160({nm})"
+    return x.hex()
+
+
+# ------------------------------------------------------------------ keys: other key sets (fixed indexes, independent of the seed)
+KEYSETS_QUICK = [1, 509]
+KEYSETS_MORE = [500, 2, 506]
+KEY_TYPES_QUICK = [("p2pkh", 1, 1, 0), ("p2wpkh", 1, 1, 0), ("p2sh-p2wpkh", 1, 1, 1), ("p2tr-key", 1, 1, 1), ("p2tr-pk", 1, 1, 1), ("p2wsh", 2, 3, 1)]
+KEY_TYPES_MORE = [("p2pkh-u", 1, 1, 1), ("p2sh", 2, 3, 1), ("p2sh-p2wsh", 2, 3, 1), ("p2tr-ms", 2, 3, 1), ("p2tr-key", 1, 1, 0)]
+KEY_MUTS = ["sig0-foreign-key", "sig0-flip-last-s-byte", "sig0-drop", "pubkey-other+its-signature", "script-other-keys", "leaf-script-other-key", "cb-flip-parity", "tx-output-amount"]
+
+
+def gen_keys(tier, seed):
+    cases = []
+    ksets = KEYSETS_QUICK + (KEYSETS_MORE if tier == "thorough" else [])
+    types = KEY_TYPES_QUICK + (KEY_TYPES_MORE if tier == "thorough" else [])
+    for kb in ksets:
+        for t in types:
+            spec = list(t) + [kb]
+            names = mutation_names(tuple(t))
+            cases.append({"spec": spec, "devs": [], "eng": "keys"})
+            for nm in (names if tier == "thorough" and kb in KEYSETS_QUICK else [x for x in KEY_MUTS if x in names]):
+                cases.append({"spec": spec, "devs": [nm], "eng": "keys"})
+    return cases
+
+
+# ------------------------------------------------------------------ shapes / hashtypes: committed fields under every transaction shape and hash type
+def shape_mutations(n_in, n_out, idx, sv):
+    """mutations of committed data that make sense for any transaction shape: name -> f(tx, spent, idx) -> new idx"""
+    muts = {}
+    o = (idx + 1) % n_in  # another input
+
+    def add(name, f):
+        muts[name] = f
+
+    def ret(i):
+        return lambda *a: i
+
+    add("out0-amount", lambda tx, sp, i: tx["outs"][0].__setitem__("amount", tx["outs"][0]["amount"] + 1))
+    add("out-last-script", lambda tx, sp, i: tx["outs"][-1].__setitem__("script", b"\x51\x20" + b"\x67" * 32))
+    add("out-added", lambda tx, sp, i: tx["outs"].append({"amount": 1, "script": b"\x51"}))
+    add("out-dropped", lambda tx, sp, i: tx["outs"].pop())
+    if n_out > 1:
+        add("outs-reversed", lambda tx, sp, i: tx["outs"].reverse())
+    if idx < n_out:
+        add("out-same-index-amount", lambda tx, sp, i: tx["outs"][i].__setitem__("amount", tx["outs"][i]["amount"] + 1))
+    add("own-sequence", lambda tx, sp, i: tx["ins"][i].__setitem__("seq", tx["ins"][i]["seq"] - 1))
+    add("own-outpoint-index", lambda tx, sp, i: tx["ins"][i].__setitem__("index", tx["ins"][i]["index"] + 1))
+    add("own-outpoint-txid", lambda tx, sp, i: tx["ins"][i].__setitem__("prev", flip(tx["ins"][i]["prev"], 31)))
+    add("locktime", lambda tx, sp, i: tx.__setitem__("locktime", tx["locktime"] + 1))
+    add("version", lambda tx, sp, i: tx.__setitem__("version", 1))
+    add("own-spent-amount", lambda tx, sp, i: sp.__setitem__(i, (sp[i][0] + 1, sp[i][1])))
+    add("input-added", lambda tx, sp, i: (tx["ins"].append({"prev": b"\x44" * 32, "index": 3, "script": b"", "seq": 5, "witness": []}), sp.append((777, b"\x51"))))
+    if n_in > 1:
+        add("other-sequence", lambda tx, sp, i: tx["ins"][o].__setitem__("seq", tx["ins"][o]["seq"] - 1))
+        add("other-outpoint", lambda tx, sp, i: tx["ins"][o].__setitem__("index", 9))
+        add("other-spent-amount", lambda tx, sp, i: sp.__setitem__(o, (sp[o][0] + 1, sp[o][1])))
+        add("other-spent-script", lambda tx, sp, i: sp.__setitem__(o, (sp[o][0], b"\x51\x20" + b"\x68" * 32)))
+
+        def drop(tx, sp, i):
+            del tx["ins"][o]
+            del sp[o]
+            return i - 1 if o < i else i
+
+        add("other-input-dropped", drop)
+
+        def rotate(tx, sp, i):
+            tx["ins"].append(tx["ins"].pop(0))
+            sp.append(sp.pop(0))
+            return (i - 1) % len(sp)
+
+        add("inputs-rotated", rotate)
+    return muts
+
+
+def run_fields(case, kind):
+    """one signed base, every shape mutation: library True => reference (authorisation mode) True"""
+    import copy
+
+    res = Res()
+    spec = tuple(case["spec"])
+    typ, m, n, variant, kbase, n_in, n_out, idx0, ht = spec_fields(spec)
+    engine = "fields"
+    vc0 = {"engine": engine, "case": case}
+    cls = f"shapes/{typ}" if kind == "shapes" else f"hashtypes/{typ}/sighash-{ht:02x}" + ("-no-matching-output" if idx0 >= n_out else "")
+    label = f"{typ} {m}of{n} in a {n_in}-input {n_out}-output transaction at input {idx0}" + (f", hash type {ht:#04x}" if ht is not None else "")
+    built = attempt(build_base, spec)
+    if isinstance(built, Rejected):
+        if case.get("part", 0) != 0:
+            return res  # reported by part 0
+        if ht is not None and (ht & 3) == 3 and idx0 >= n_out and typ.startswith("p2tr"):
+            res.ok("library refuses to sign SIGHASH_SINGLE without a matching output (BIP341: such a signature is invalid)", nontrivial=("nosign", spec))
+            return res
+        res.violation(f"C06/{engine}/{cls}/cannot-sign", vc0, repr(built), "signed spend", f"{label}: signing through the library raises")
+        return res
+    tx0, spent0, idx, info = built
+    part = case.get("part", 0)
+    level0 = part == 0 and not case.get("only")
+    strict = interp.verify_input(tx0, idx, spent0) if level0 else None
+    lib0 = lib_verify_guarded(tx0, spent0, idx) if level0 else None
+    if not level0:
+        if not info["lib_ok"] and info["lib_signed"]:
+            return res  # reported by part 0
+    elif info["lib_signed"]:
+        if lib0 is not True or not info["lib_ok"]:
+            res.violation(f"C06/{engine}/{cls}/own-spend-rejected", vc0, lib0, True, f"{label}: spend built and signed through the library does not verify")
+            return res
+        if not strict:
+            res.violation(f"C06/{engine}/{cls}/own-spend-invalid-by-reference", vc0, True, False, f"{label}: library accepts its own spend, reference consensus verifier rejects it")
+            return res
+        res.ok("own spend verifies (library and reference)", nontrivial=("base", spec), sample=case)
+    else:
+        assert strict, ("reference rejects its own signature", spec)
+        if lib0 is True:
+            res.ok("spend signed by the right key (reference signer) verifies", nontrivial=("base", spec))
+        else:
+            res.ok("library rejects a spend consensus accepts (completeness not claimed for signatures the library cannot make)", nontrivial=("base-rej", spec))
+    for j, (nm, f) in enumerate(shape_mutations(n_in, n_out, idx, info["sigver"]).items()):
+        if case.get("only") and nm != case["only"]:
+            continue
+        if not case.get("only") and "part" in case and j % FIELD_PARTS != part:
+            continue
+        tx, sp = copy.deepcopy(tx0), list(spent0)
+        i2 = f(tx, sp, idx)
+        i2 = idx if not isinstance(i2, int) or isinstance(i2, bool) else i2
+        tx["segwit"] = any(i.get("witness") for i in tx["ins"])
+        ref_ok = interp.verify_input(tx, i2, sp, relaxed=True)
+        lib = lib_verify_guarded(tx, sp, i2)
+        vc = {"engine": engine, "case": dict(case, only=nm)}
+        if lib == "hang":
+            res.violation(f"C06/{engine}/{cls}/does-not-terminate", vc, "hang", False, f"{label}: [{nm}] does not terminate")
+        elif lib and not ref_ok:
+            res.violation(f"C06/{engine}/{cls}/{nm}", vc, True, False, f"{label}: after [{nm}] the signature still verifies although it does not commit to the changed transaction")
+        elif lib:
+            res.ok("change not committed by this hash type / signature version: still authorised", nontrivial=("free", spec, nm))
+        elif ref_ok:
+            res.ok("library rejects a spend consensus accepts (completeness not claimed for mutated spends)")
+        else:
+            res.ok("signature over a different transaction rejected", nontrivial=(spec, nm))
+    return res
+
+
+SHAPE_TYPES_QUICK = [("p2pkh", 1, 1, 0), ("p2sh-p2wpkh", 1, 1, 1), ("p2tr-key", 1, 1, 1), ("p2tr-pk", 1, 1, 1)]
+SHAPE_TYPES_MORE = [("p2sh", 2, 3, 1), ("p2wsh", 2, 3, 1), ("p2wpkh", 1, 1, 0), ("p2sh-p2wsh", 1, 2, 1), ("p2tr-ms", 2, 3, 1)]
+SHAPES_QUICK = [(1, 1, 0), (3, 3, 2)]
+
+
+def gen_shapes(tier, seed):
+    if tier == "quick":
+        shapes, types = SHAPES_QUICK, SHAPE_TYPES_QUICK
+    else:
+        shapes = [(a, b, i) for a in (1, 2, 3) for b in (1, 2, 3) for i in range(a)]
+        types = SHAPE_TYPES_QUICK + SHAPE_TYPES_MORE
+    return [{"spec": list(t) + [0, a, b, i]} for t in types for (a, b, i) in shapes]
+
+
+HT_TYPES = [("p2tr-key", 1, 1, 1), ("p2pkh", 1, 1, 0), ("p2wpkh", 1, 1, 0)]
+HT_TYPES_MORE = [("p2tr-pk", 1, 1, 1), ("p2sh-p2wpkh", 1, 1, 1), ("p2wsh", 1, 1, 1), ("p2sh", 1, 1, 1), ("p2tr-ms", 1, 1, 1)]
+
+
+def gen_hashtypes(tier, seed):
+    hts = [2, 3, 0x81] if tier == "quick" else [1, 2, 3, 0x81, 0x82, 0x83]
+    types = HT_TYPES + (HT_TYPES_MORE if tier == "thorough" else [])
+    cases = []
+    for t in types:
+        for ht in hts:
+            cases.append({"spec": list(t) + [0, 2, 2, 0, ht]})
+            if tier == "thorough":
+                cases.append({"spec": list(t) + [0, 3, 3, 1, ht]})
+            if ht & 3 == 3:
+                cases.append({"spec": list(t) + [0, 2, 1, 1, ht]})  # SIGHASH_SINGLE without a matching output
+    return cases
+
+
+FIELD_PARTS = 3
+
+
+def gen_fields(tier, seed):
+    cases = [dict(c, kind="shapes") for c in gen_shapes(tier, seed)] + [dict(c, kind="hashtypes") for c in gen_hashtypes(tier, seed)]
+    # a case is one signed base and every FIELD_PARTS-th mutation (part 0 also checks the unmodified spend)
+    return [dict(c, part=p) for c in cases for p in range(FIELD_PARTS)]
+
+
+def run_fields_case(case):
+    return run_fields(case, case["kind"])
+
+
+# ------------------------------------------------------------------ taptree: annex and deep script trees
+TT_QUICK = [("key", 0, True, 0), ("pk", 3, True, 0), ("pk", 3, True, 1), ("pk", 3, False, 1)]
+TT_MORE = [("key", 0, True, 1), ("pk", 3, False, 0), ("ms", 2, True, 0), ("ms", 2, True, 1), ("key", 0, False, 0), ("key", 0, False, 1), ("pk", 1, True, 0), ("pk", 5, True, 1), ("ms", 4, False, 0), ("ms", 4, False, 1)]
+
+
+@functools.lru_cache(maxsize=8)
+def build_tap(kind, depth, annex, want_parity):
+    """a taproot spend signed through the library (get_sig_taproot on a pre-filled witness): key path with annex, or a
+    leaf at the given depth of a script tree, with/without annex; the internal key is chosen so that the output key has
+    the wanted parity.  Returns (tx, spent, idx, info) like build_base."""
+    L = lib_objects()
+    pecc, Script, Tx, TxIn, TxOut, Witness, taproot = L["pecc"], L["Script"], L["Tx"], L["TxIn"], L["TxOut"], L["Witness"], L["taproot"]
+    from buidl.script import ScriptPubKey
+
+    ax = [b"\x50\xde\xad"] if annex else []
+    idx, amount = 1, 1234567
+    n = 3 if kind == "ms" else 1
+    keys = [600 + j for j in range(n)]
+    privs = [pecc.PrivateKey(key(k)) for k in keys]
+    info = {"type": "p2tr-" + kind, "m": 2 if kind == "ms" else 1, "n": n, "keys": keys}
+    if kind == "key":
+        kidx = next(k for k in range(700, 900) if C.taproot_tweak(C.mulg(key(k))[0], b"")[1] == want_parity)
+        privs = [pecc.PrivateKey(key(kidx))]
+        info.update(keys=[kidx], sigver="tapkey", root=b"", sig_at=[("wit", 0)])
+        spk = privs[0].point.p2tr_script(b"").raw_serialize()
+    else:
+        tap_script = taproot.MultiSigTapScript([p.point for p in privs], 2) if kind == "ms" else taproot.P2PKTapScript(privs[0].point)
+        leaf = tap_script.tap_leaf()
+        tree = leaf
+        for d in range(depth):
+            sib = taproot.TapLeaf(Script([bytes([0x10 + d]) * 32, 0xAC]))
+            if d % 2:
+                sib = taproot.TapBranch(sib, taproot.TapLeaf(Script([bytes([0x20 + d]) * 32, 0xAC])))
+            tree = taproot.TapBranch(tree, sib) if d % 2 else taproot.TapBranch(sib, tree)
+        root = tree.hash()
+        kint = next(k for k in range(700, 900) if C.taproot_tweak(C.mulg(key(k))[0], root)[1] == want_parity)
+        internal = pecc.PrivateKey(key(kint)).point
+        cb = tree.control_block(internal, leaf)
+        spk = internal.p2tr_script(root).raw_serialize()
+        info.update(sigver="tapscript", script=tap_script.raw_serialize(), leaf_hash=leaf.hash(), depth=len(cb.hashes))
+    other_spk = b"\x76\xa9\x14" + txref.h160(C.sec(C.mulg(key(FOREIGN)))) + b"\x88\xac"
+    spent = [(5000, other_spk), (amount, spk)]
+    tins = []
+    for i in range(2):
+        ti = TxIn(bytes([0x31 + i]) * 32, i, None, 0xFFFFFFFD)
+        ti._value = spent[i][0]
+        ti._script_pubkey = ScriptPubKey.parse(BytesIO(txref.varbytes(spent[i][1])))
+        tins.append(ti)
+    ltx = Tx(2, tins, [TxOut(amount - 3000, L["P2PKHScriptPubKey"](b"\x55" * 20))], 0, network="mainnet", segwit=True)
+    if kind == "key":
+        ltx.tx_ins[idx].witness = Witness([b""] + ax)  # placeholder for the signature, so that the annex is seen
+        sig = ltx.get_sig_taproot(idx, privs[0].tweaked_key(b""))
+        ltx.tx_ins[idx].witness = Witness([sig] + ax)
+    else:
+        tail = [tap_script.raw_serialize(), cb.serialize()] + ax
+        ltx.tx_ins[idx].witness = Witness(list(tail))
+        order = sorted(range(n), key=lambda k: ec.b32(C.mulg(key(keys[k]))[0]))
+        chosen = order[: info["m"]]
+        sigs = [ltx.get_sig_taproot(idx, privs[k], ext_flag=1) if k in chosen else b"" for k in reversed(order)]
+        ltx.tx_ins[idx].witness = Witness(sigs + tail)
+        info.update(signers=chosen, sig_at=[("wit", j) for j in range(n) if sigs[j]], script_at=("wit", n), cb_at=("wit", n + 1))
+    ok = ltx.verify_input(idx)
+    tx = abstract_of(ltx, spent)
+    info.update(lib_ok=bool(ok), annex_at=len(tx["ins"][idx]["witness"]) - 1 if annex else None)
+    return tx, spent, idx, info
+
+
+def tap_mutations(info, tx0, idx):
+    muts = {}
+    w0 = tx0["ins"][idx]["witness"]
+
+    def W(tx, i):
+        return tx["ins"][i]["witness"]
+
+    s0 = info["sig_at"][0]
+    muts["sig0-flip-last-byte"] = lambda tx, sp, i: put_at(tx, i, s0, flip(get_at(tx, i, s0), -1))
+    muts["sig0-foreign-key"] = lambda tx, sp, i: put_at(tx, i, s0, ref_sign(tx, sp, i, info, key(FOREIGN)))
+    muts["sig0-empty"] = lambda tx, sp, i: put_at(tx, i, s0, b"")
+    if info["annex_at"] is not None:
+        a = info["annex_at"]
+        muts["annex-changed"] = lambda tx, sp, i: W(tx, i).__setitem__(a, flip(W(tx, i)[a], -1))
+        muts["annex-extended"] = lambda tx, sp, i: W(tx, i).__setitem__(a, W(tx, i)[a] + b"\x00")
+        muts["annex-removed"] = lambda tx, sp, i: W(tx, i).pop()
+        muts["annex-doubled"] = lambda tx, sp, i: W(tx, i).append(W(tx, i)[a])
+        muts["annex-moved-to-front"] = lambda tx, sp, i: W(tx, i).insert(0, W(tx, i).pop())
+        muts["annex-marker-lost"] = lambda tx, sp, i: W(tx, i).__setitem__(a, b"\x51" + W(tx, i)[a][1:])
+
+        def resign_without(tx, sp, i):
+            ax = W(tx, i).pop()
+            put_at(tx, i, s0, ref_sign(tx, sp, i, info, signer_secret(info, 0, tx, i)))
+            W(tx, i).append(ax)
+
+        muts["annex-added-after-signing"] = resign_without
+    else:
+        muts["annex-appended"] = lambda tx, sp, i: W(tx, i).append(b"\x50\xaa")
+    if "cb_at" in info:
+        c = info["cb_at"][1]
+        depth = info["depth"]
+
+        def cbm(g):
+            return lambda tx, sp, i: W(tx, i).__setitem__(c, g(W(tx, i)[c]))
+
+        for j in range(depth):
+            muts[f"path-element-{j}-flipped"] = cbm(lambda b, j=j: flip(b, 33 + 32 * j + 5))
+        muts["path-first-element-removed"] = cbm(lambda b: b[:33] + b[65:])
+        muts["path-last-element-removed"] = cbm(lambda b: b[:-32])
+        muts["path-element-duplicated"] = cbm(lambda b: b + b[-32:])
+        if depth >= 2:
+            muts["path-first-two-swapped"] = cbm(lambda b: b[:33] + b[65:97] + b[33:65] + b[97:])
+            muts["path-reversed"] = cbm(lambda b: b[:33] + b"".join(reversed([b[33 + 32 * j : 65 + 32 * j] for j in range(depth)])))
+        muts["cb-parity-flipped"] = cbm(lambda b: flip(b, 0))
+        muts["cb-internal-key-flipped"] = cbm(lambda b: flip(b, 20))
+        muts["leaf-script-flipped"] = lambda tx, sp, i: put_at(tx, i, info["script_at"], flip(get_at(tx, i, info["script_at"]), 3))
+        muts["leaf-script-and-cb-swapped"] = lambda tx, sp, i: swap(tx, i, info["script_at"], info["cb_at"])
+    return muts
+
+
+def gen_taptree(tier, seed):
+    bases = TT_QUICK + (TT_MORE if tier == "thorough" else [])
+    return [{"kind": k, "depth": d, "annex": a, "parity": p} for (k, d, a, p) in bases]
+
+
+def run_taptree(case):
+    import copy
+
+    res = Res()
+    tx0, spent0, idx, info = build_tap(case["kind"], case["depth"], case["annex"], case["parity"])
+    typ = info["type"]
+    cls = f"{typ}/" + ("annex" if case["annex"] else "no-annex")
+    label = f"{typ} " + (f"leaf at depth {info.get('depth')} " if "depth" in info else "") + ("with annex" if case["annex"] else "without annex") + f", output key parity {case['parity']}"
+    vc0 = {"engine": "taptree", "case": case}
+    strict = interp.verify_input(tx0, idx, spent0)
+    lib0 = lib_verify_guarded(tx0, spent0, idx)
+    if lib0 is not True or not info["lib_ok"]:
+        res.violation(f"C06/taptree/{cls}/own-spend-rejected", vc0, lib0, True, f"{label}: spend signed through the library does not verify")
+        return res
+    if not strict:
+        res.violation(f"C06/taptree/{cls}/own-spend-invalid-by-reference", vc0, True, False, f"{label}: library accepts its own spend, reference consensus verifier rejects it")
+        return res
+    res.ok("own spend verifies (library and reference)", nontrivial=("base", tuple(sorted(case.items()))), sample=case)
+    for nm, f in tap_mutations(info, tx0, idx).items():
+        if case.get("only") and nm != case["only"]:
+            continue
+        tx, sp = copy.deepcopy(tx0), list(spent0)
+        try:
+            f(tx, sp, idx)
+        except (IndexError, KeyError):
+            res.skip("mutation not applicable")
+            continue
+        ref_ok = interp.verify_input(tx, idx, sp, relaxed=True)
+        lib = lib_verify_guarded(tx, sp, idx)
+        vc = {"engine": "taptree", "case": dict(case, only=nm)}
+        if lib == "hang":
+            res.violation(f"C06/taptree/{cls}/does-not-terminate", vc, "hang", False, f"{label}: [{nm}] does not terminate")
+        elif lib and not ref_ok:
+            res.violation(f"C06/taptree/{cls}/{nm}", vc, True, False, f"{label}: mutated spend [{nm}] verifies although consensus rejects it")
+        elif lib:
+            res.ok("benign mutation (still authorised)")
+        elif ref_ok:
+            res.ok("library rejects a spend consensus accepts (completeness not claimed for mutated spends)")
+        else:
+            res.ok("unauthorised spend rejected", nontrivial=(tuple(sorted(case.items())), nm))
+    return res
+
+
+# ------------------------------------------------------------------ tapslots: k-of-n tapscript multisig, every assignment of the signature slots
+TS_SLOTS = ["v", "e", "f", "w", "o", "x", "k", "s"]
+TS_WHAT = {
+    "v": "signature by the slot's key over this spend",
+    "e": "empty",
+    "f": "signature by a foreign key over this spend",
+    "w": "signature by the slot's key over another transaction (locktime + 1)",
+    "o": "valid signature of the NEXT script key placed in this slot",
+    "x": "signature by the slot's key with an explicit 00 hash-type byte (65 bytes)",
+    "k": "signature by the slot's key over the key-path message (no leaf hash)",
+    "s": "the slot's valid signature cut to 63 bytes",
+}
+
+
+def gen_tapslots(tier, seed):
+    kn = [(1, 1), (2, 2)] + ([(1, 2), (1, 3), (2, 3), (3, 3)] if tier == "thorough" else [])
+    return [{"k": k, "n": n, "first": a} for (k, n) in kn for a in TS_SLOTS if not (n == 1 and a == "o")]
+
+
+def run_tapslots(case):
+    import copy
+
+    res = Res()
+    k, n = case["k"], case["n"]
+    spec = ("p2tr-ms", k, n, 1)
+    tx0, spent0, idx, info = build_base(spec)
+    kk = info["keys"]
+    # witness position p (0 = first item) belongs to the key with the (n-1-p)-th smallest x-only public key
+    order = sorted(range(n), key=lambda j: ec.b32(C.mulg(key(kk[j]))[0]))
+    slot_key = [kk[order[n - 1 - p]] for p in range(n)]
+    base = copy.deepcopy(tx0)
+    other = copy.deepcopy(tx0)
+    other["locktime"] += 1
+    sigs = []
+    for p in range(n):
+        d = key(slot_key[p])
+        v = ref_sign(base, spent0, idx, info, d)
+        msg_key_path = txref.sighash_bip341(base, idx, spent0, 0, annex=None, leaf_hash=None)
+        sigs.append(
+            {
+                "v": v,
+                "e": b"",
+                "f": ref_sign(base, spent0, idx, info, key(FOREIGN)),
+                "w": ref_sign(other, spent0, idx, info, d),
+                "o": ref_sign(base, spent0, idx, info, key(slot_key[(p + 1) % n])),
+                "x": v + b"\x00",
+                "k": C.schnorr_sign(d, msg_key_path, b"\x00" * 32),
+                "s": v[:63],
+            }
+        )
+    alphabet = [a for a in TS_SLOTS if not (n == 1 and a == "o")]
+    for rest in itertools.product(alphabet, repeat=n - 1):
+        combo = (case["first"],) + rest
+        if case.get("only") and list(combo) != list(case["only"]):
+            continue
+        tx = copy.deepcopy(tx0)
+        for p in range(n):
+            tx["ins"][idx]["witness"][p] = sigs[p][combo[p]]
+        valid = sum(1 for a in combo if a in ("v", "x"))
+        honest = valid == k and all(a in ("v", "e") for a in combo)
+        allowed = valid == k  # the leaf demands exactly k valid signatures by distinct script keys (<count> k OP_EQUAL)
+        strict = interp.verify_input(tx, idx, spent0)
+        assert not strict or honest, ("reference (strict) accepts a non-honest slot assignment", k, n, combo)
+        assert strict or not honest, ("reference (strict) rejects an honest slot assignment", k, n, combo)
+        lib = lib_verify_guarded(tx, spent0, idx)
+        vc = {"engine": "tapslots", "case": dict(case, only=list(combo))}
+        what = f"{k}-of-{n} tapscript multisig, signature slots (witness order) {'/'.join(combo)}"
+        if lib == "hang":
+            res.violation("C06/tapslots/does-not-terminate", vc, "hang", False, what + ": does not terminate")
+        elif lib and not allowed:
+            res.violation(f"C06/tapslots/{k}of{n}/accepts-{valid}-valid-signatures", vc, True, False, what + f": accepted with {valid} valid signatures by script keys, the leaf requires exactly {k}")
+        elif honest and not lib:
+            res.violation(f"C06/tapslots/{k}of{n}/rejects-honest", vc, False, True, what + ": exactly k script keys signed, rejected")
+        elif lib:
+            res.ok("k valid signatures by distinct script keys: accepted" + ("" if honest else " (beside non-empty invalid signatures or an explicit 00 byte: consensus rejects, authorisation is intact)"), nontrivial=("acc", k, n, combo))
+        else:
+            res.ok("rejected" + ("" if not allowed else " although k valid signatures are present (library stricter; consensus rejects too)"), nontrivial=("rej", k, n, combo))
     return res
 
 
@@ -686,5 +1430,53 @@ def engines(tier, seed):
             kind="E1",
             chunk=4,
             rule="for 8 signed bases (P2PKH, P2SH 1of2/2of3, P2SH-P2WPKH, P2SH-P2WSH, P2WPKH, P2WSH, P2TR key path) the scriptSig is replaced by EVERY sequence over a 27-item alphabet (redeem script / witness program / public key push, multisig script push, OP_0, push 01, OP_1, NOP, DUP, DROP, IF, NOTIF, ELSE, ENDIF, RETURN, VERIFY, DEPTH, EQUAL, HASH160, TOALTSTACK, FROMALTSTACK, 2DROP, CLTV, CHECKSIG, CHECKMULTISIG, SWAP, IFDUP, SIZE, NOT) up to length 2 (thorough 3) and over a 13-item core up to length 3 (thorough 4), with the witness emptied and with it kept; oracle: library True => reference verifier (scriptSig and scriptPubKey evaluated separately, BIP16 push-only) valid; with the witness emptied the reference itself must reject every sequence",
+        ),
+        Engine(
+            "hijack",
+            gen_hijack,
+            run_hijack,
+            kind="E1",
+            chunk=1,
+            rule="witness-program shaped pushes in the scriptSig next to a witness made by the attacker: for the signed bases P2PKH, P2SH 1of2/2of3, P2SH-P2WPKH, P2SH-P2WSH 2of3 (thorough: also P2WPKH, P2WSH, P2TR key path) the scriptSig is replaced by EVERY sequence over an 11-item alphabet (R = redeem script / witness program / public key push, OP_0, OP_1, push 51 (the script OP_1), h160(attacker pubkey), sha256(script OP_1), the attacker's taproot output key committing to a leaf OP_1, a well-formed ECDSA signature by the attacker over an unrelated message, h160(R), sha256(R), push 01) up to length 2 (thorough 3) and over the first 7 items up to length 3 (thorough 4), plus the six 4-item forms [OP_0|OP_1, program, signature, R]; each crossed with the witnesses {none, [51], [attacker signature over the legacy digest of this transaction with script code = scriptPubKey (P2SH: last scriptSig push), attacker pubkey], [51, attacker control block], the honest witness}; the library call runs under a 10 CPU-second limit (no result = violation 'does-not-terminate'); oracle: library True => reference verifier (authorisation mode) valid, and the reference itself must reject every case without the honest witness; non-trivial = rejected spend",
+        ),
+        Engine(
+            "witfree",
+            gen_witfree,
+            run_witfree,
+            kind="E1",
+            chunk=3,
+            rule="witness stacks that contain no valid signature: signed bases P2WPKH and P2SH-P2WPKH (key index 1: SEC bytes execute as a harmless script), P2WSH 1of2, P2TR key path, P2TR P2PK leaf (thorough adds P2WPKH with key indexes 0, 509, 500, P2SH-P2WSH 2of3, tapscript 2of3 and 1of2, P2PK leaf in a tree) keep their honest scriptSig; the witness is prefix ++ tail with tail in {nothing, the honest non-signature tail (public key | witness script | leaf script + control block), well-formed foreign signatures in every signature slot + honest tail, empty signatures + honest tail, [51], [51, attacker control block]} and EVERY prefix up to length 1 (thorough: 3, taproot 2) over the per-base alphabet {'', 01, foreign ECDSA signature, foreign Schnorr signature, h160(attacker pubkey), sha256(script OP_1), attacker taproot output key, attacker pubkey, annex 5001, and each honest tail item x with sha256(x) and (33-byte x) h160(x)} and up to length 3 (taproot 2; thorough 4, taproot 3) over the core {'', 01, type-appropriate foreign signature, attacker output key, sha256/h160 of the last tail item}; with the foreign-signature tail the prefix bound is core length 2 (thorough: full 2 / core 4, taproot full 1 / core 3); 10 CPU-second limit per library call (no result = violation); oracle: the reference verifier must reject every case (asserted) and Tx.verify_input must not return True; non-trivial = every case",
+        ),
+        Engine(
+            "keys",
+            gen_keys,
+            run_spend,
+            kind="E1",
+            chunk=6,
+            rule="key sets other than the default one, fixed key indexes independent of the seed (quick: first key index 1 and 509 (SEC bytes execute as a harmless script, even / odd y); thorough adds 500, 2, 506): P2PKH, P2WPKH, P2SH-P2WPKH, P2TR key path (with script tree), P2TR P2PK leaf, P2WSH 2of3 (thorough adds uncompressed P2PKH, P2SH 2of3, P2SH-P2WSH 2of3, tapscript 2of3, P2TR key path without tree) built and signed through the library; level 0 must verify under library and reference; level 1: the applicable ones of 8 key-sensitive mutations (foreign-key signature, flipped s, dropped signature, other pubkey with its own signature, script / leaf script with other keys, control-block parity, output amount), thorough: for key indexes 1 and 509 the whole single-mutation catalogue of the spend engine; oracle as in spend",
+        ),
+        Engine(
+            "fields",
+            gen_fields,
+            run_fields_case,
+            kind="E1",
+            chunk=1,
+            rule="committed transaction data under every transaction shape and hash type. (shapes) bases P2PKH, P2SH-P2WPKH, P2TR key path, P2TR P2PK leaf (thorough adds P2SH 2of3, P2WSH 2of3, P2WPKH, P2SH-P2WSH 1of2, tapscript 2of3) signed through the library as input idx of an n_in-input n_out-output transaction for (n_in, n_out, idx) in {(1,1,0), (3,3,2)} (thorough: every 1 <= n_in, n_out <= 3 and every idx). (hashtypes) hash types other than ALL/DEFAULT by the RIGHT key: P2TR key path signed through the library (sign_p2tr_keypath hash_type=), P2PKH and P2WPKH signed by the reference signer with the wallet key (thorough adds P2TR P2PK leaf and tapscript 1of1 through get_sig_taproot hash_type=, P2SH-P2WPKH, P2WSH 1of1, P2SH 1of1) with hash type in {02, 03, 81} (thorough {01, 02, 03, 81, 82, 83}) in a 2x2 transaction (thorough also 3x3 at input 1), and for SINGLE also as input 1 of a 2-input 1-output transaction (no matching output: the library must refuse to sign for taproot). Library-signed level 0 must verify under library and strict reference; then each of up to 20 changes of committed data (output amount / script / added / dropped / reversed / same-index amount, own sequence / outpoint / spent amount, other sequence / outpoint / spent amount / spent scriptPubKey, locktime, version, input added / dropped / inputs rotated); 10 CPU-second limit per library call; oracle: library True => reference (authorisation mode) valid, i.e. exactly the data the hash type and signature version leave open may change; non-trivial = rejected change",
+        ),
+        Engine(
+            "tapslots",
+            gen_tapslots,
+            run_tapslots,
+            kind="E1",
+            chunk=1,
+            rule="k-of-n tapscript multisig (real curve), (k,n) in {1of1, 2of2} (thorough adds 1of2, 1of3, 2of3, 3of3), base built and signed through the library; EVERY assignment of the n signature slots from {valid signature of the slot's key, empty, foreign-key signature, the slot key's signature over another transaction, the next script key's valid signature, valid signature + explicit 00 byte, the slot key's key-path signature (no leaf hash), valid signature cut to 63 bytes} (signatures made by the reference signer); oracle (spec formula, BIP342 leaf <count> k OP_EQUAL): Tx.verify_input True => exactly k slots hold a valid signature of their own key; exactly k valid + otherwise empty slots must be accepted; the strict reference verifier must agree with 'honest' (asserted); 10 CPU-second limit per library call",
+        ),
+        Engine(
+            "taptree",
+            gen_taptree,
+            run_taptree,
+            kind="E1",
+            chunk=1,
+            rule="taproot spends with an annex and deep script trees, signed through the library (get_sig_taproot on a pre-filled witness): key path + annex, P2PK leaf at depth 3 with annex (output-key parity 0 and 1) and without (parity 1) (thorough adds the other parities, 2of3 multisig leaf at depth 2 + annex and depth 4, key path without annex, P2PK leaf at depth 1 and 5 + annex), the internal key being chosen for the stated output-key parity; level 0 must verify under library and strict reference; mutations: signature flipped / foreign / empty, annex changed / extended / removed / doubled / moved to front / marker lost / added after signing (or appended when absent), every path element flipped, first / last path element removed, element duplicated, first two swapped, path reversed, control-block parity / internal key flipped, leaf script flipped, leaf script and control block swapped; oracle: library True => reference (authorisation mode) valid",
         ),
     ]
